@@ -351,13 +351,14 @@ RETCODE adfDelFromCache ( struct AdfVolume * const         vol,
                     /* dirc.recordsNb ==1 or == 0 , prevSect!=-1 : 
                     * the only record in this dirc block and a previous dirc block exists 
                     */
+                    SECTNUM nextSect = dirc.nextDirC;
                     adfSetBlockFree(vol, dirc.headerKey);
 
                     rc = adfReadDirCBlock ( vol, prevSect, &dirc );
                     if ( rc != RC_OK )
                         return rc;
 
-                    dirc.nextDirC = 0L;
+                    dirc.nextDirC = nextSect;
 
                     rc = adfWriteDirCBlock ( vol, prevSect, &dirc );
                     if ( rc != RC_OK )
